@@ -4,6 +4,7 @@ import (
 	"go/ast"
 	"go/token"
 	"go/types"
+	"strings"
 
 	"gengoverif/checker/internal/cfgx"
 	"gengoverif/checker/internal/core"
@@ -50,6 +51,21 @@ func a5Check(r *core.Report, rule string, f *core.Func, extra ...a5Tactic) int {
 			if bc.indexable(x.X) {
 				n++
 				bc.obligation(x, x.X, bc.needOfIndex(x.X, x.Index, false))
+			}
+		case *ast.CallExpr:
+			// size arguments that panic when negative
+			if idx, ok := sizeArgCallees[core.CalleeName(bc.info, x)]; ok && idx < len(x.Args) {
+				n++
+				bc.sizeObligation(x, x.Args[idx])
+			}
+			if core.CalleeName(bc.info, x) == "builtin.make" {
+				for _, a := range x.Args[1:] {
+					if _, isC := core.ConstInt(bc.info, a); isC {
+						continue
+					}
+					n++
+					bc.sizeObligation(x, a)
+				}
 			}
 		case *ast.SliceExpr:
 			if bc.indexable(x.X) {
@@ -360,6 +376,94 @@ func (bc *boundsCtx) byLoop(e ast.Expr, base ast.Expr, need needLen, facts []cfg
 
 // nonNegative: the variable is initialised with a constant >= 0 and otherwise
 // only incremented.
+// sizeArgCallees: standard-library calls that panic for a negative count (argument index).
+var sizeArgCallees = map[string]int{
+	"(*strings.Builder).Grow": 0, "(*bytes.Buffer).Grow": 0, "strings.Repeat": 1, "bytes.Repeat": 1, "slices.Grow": 1, "slices.Repeat": 1,
+}
+
+// nonNegExpr: e is >= 0 on every path to `at`: constants, len/cap, unsigned values, sums and
+// products of such, non-negative locals, and `len(x) - c` under a dominating guard len(x) >= c.
+func (bc *boundsCtx) nonNegExpr(e ast.Expr, facts []cfgx.Fact) bool {
+	e = ast.Unparen(e)
+	if c, ok := core.ConstInt(bc.info, e); ok {
+		return c >= 0
+	}
+	if t := bc.info.TypeOf(e); t != nil {
+		if b, ok := t.Underlying().(*types.Basic); ok && b.Info()&types.IsUnsigned != 0 {
+			return true
+		}
+	}
+	switch x := e.(type) {
+	case *ast.CallExpr:
+		switch core.CalleeName(bc.info, x) {
+		case "builtin.len", "builtin.cap", "builtin.min", "builtin.max":
+			if n := core.CalleeName(bc.info, x); n == "builtin.len" || n == "builtin.cap" {
+				return true
+			}
+			if core.CalleeName(bc.info, x) == "builtin.max" {
+				for _, a := range x.Args {
+					if bc.nonNegExpr(a, facts) {
+						return true
+					}
+				}
+				return false
+			}
+			for _, a := range x.Args {
+				if !bc.nonNegExpr(a, facts) {
+					return false
+				}
+			}
+			return true
+		}
+		if strings.HasSuffix(core.CalleeName(bc.info, x), ").Len") || strings.HasSuffix(core.CalleeName(bc.info, x), "utf8.RuneCountInString") {
+			return true
+		}
+		// conversion int(x)
+		if tv, ok := bc.info.Types[x.Fun]; ok && tv.IsType() && len(x.Args) == 1 {
+			return bc.nonNegExpr(x.Args[0], facts)
+		}
+	case *ast.BinaryExpr:
+		switch x.Op {
+		case token.ADD, token.MUL:
+			return bc.nonNegExpr(x.X, facts) && bc.nonNegExpr(x.Y, facts)
+		case token.SUB:
+			// len(base) - c under len(base) >= c
+			if c, ok := core.ConstInt(bc.info, x.Y); ok && c >= 0 {
+				if lc, isCall := ast.Unparen(x.X).(*ast.CallExpr); isCall && core.CalleeName(bc.info, lc) == "builtin.len" && len(lc.Args) == 1 {
+					for _, f := range facts {
+						if lb, ok := bc.lenLowerBound(f, lc.Args[0]); ok && lb >= c {
+							return true
+						}
+					}
+				}
+			}
+			return false
+		case token.QUO, token.REM, token.SHR:
+			return bc.nonNegExpr(x.X, facts) && bc.nonNegExpr(x.Y, facts)
+		}
+	case *ast.Ident:
+		if v := core.VarOf(bc.info, x); v != nil {
+			if bc.nonNegative(v) {
+				return true
+			}
+			if d, ok := core.SingleDef(bc.info, bc.f.Root().Body, v); ok && d.Index < 0 {
+				return bc.nonNegExpr(d.Rhs, bc.g.FactsAt(bc.g.PointOf(d.Stmt)))
+			}
+		}
+	}
+	return false
+}
+
+func (bc *boundsCtx) sizeObligation(call *ast.CallExpr, arg ast.Expr) {
+	construct := "count argument " + core.ExprStr(arg) + " of " + core.ExprStr(call.Fun) + " is never negative"
+	facts := bc.g.FactsAt(bc.g.PointOf(call))
+	if bc.nonNegExpr(arg, facts) {
+		bc.r.OK(bc.rule, bc.f, construct, call.Pos(), "T6 non-negative by construction (lengths, constants, sums/products, guarded differences)")
+		return
+	}
+	bc.r.Bad(bc.rule, bc.f, construct, call.Pos(), "the count can be negative for some input (e.g. a difference of lengths for an empty input): the call panics")
+}
+
 func (bc *boundsCtx) nonNegative(v *types.Var) bool {
 	defs := core.DefsOf(bc.info, bc.f.Root().Body, v)
 	if len(defs) == 0 {
